@@ -65,6 +65,8 @@ func main() {
 		if nfail > 0 {
 			os.Exit(1)
 		}
+	case "corpus-gen":
+		corpusGen(os.Args[2])
 	default:
 		fatalf("unknown command %q", os.Args[1])
 	}
